@@ -50,6 +50,8 @@ impl TaskDistributor {
 
     /// Marks that the cluster has mutated some data.
     pub(crate) fn mutation(&self, mutation: Mutation) {
+        #[cfg(datacake_verif)]
+        crate::verif::dist_enqueue(Arc::as_ptr(&self.kill_switch) as usize, &mutation);
         let _ = self.tx.send(Op::Mutation(mutation));
     }
 
@@ -169,6 +171,12 @@ async fn task_distributor_service<S>(
                     .collect(),
             };
 
+            #[cfg(datacake_verif)]
+            crate::verif::dist_batch(
+                Arc::as_ptr(&kill_switch) as usize,
+                &batch,
+                live_members.keys().copied(),
+            );
             if let Err(e) = execute_batch::<S>(&ctx, &live_members, batch).await {
                 error!(error = ?e, "Failed to execute synchronisation batch.");
             }
